@@ -79,9 +79,11 @@ Definition save_region (s : storage) (r : region) : storage :=
     else flush (Storage true (s_kv s) (kv_put (s_batch s) r) (s_count s))
   else Storage false (kv_put (s_kv s) r) (s_batch s) (s_count s).
 
-(* DeleteRegion goes to the kv in both backends: the batch is not consulted *)
+(* DeleteRegion: kv.Base.Remove of the key.  On the region-storage backend that is the Remove method of RegionStorage:
+   the pending entry of the write-back batch is dropped first (cacheSize is left alone), then leveldb. *)
 Definition delete_region (s : storage) (r : region) : storage :=
-  Storage (s_wb s) (kv_del (s_kv s) (r_id r)) (s_batch s) (s_count s).
+  Storage (s_wb s) (kv_del (s_kv s) (r_id r))
+          (if s_wb s then kv_del (s_batch s) (r_id r) else s_batch s) (s_count s).
 
 Definition load_region (s : storage) (id : Z) : option region := regs_get (s_kv s) id.
 
